@@ -79,6 +79,8 @@ func c16Row(cr c16Crop, table int) string {
 	case 4: // irrigation in one stage only, small daily maximum, irrigate when below 95 % of capacity
 		irr1, irr2, irrlow, irrmax = "3", "3", " 95", "  8"
 		nd1, nd2, nd3, st1, st2, st3 = "250", "250", "250", "S0 ", "S2 ", "S4 "
+	case 9: // (used by the long worlds) harvest at any topsoil moisture: the model may decide to harvest on a rainy day
+		hmomax = "999.0"
 	case 8: // (used by C13) irrigation in every stage, small daily maximum, irrigate when below 90 % of capacity
 		irr1, irr2, irrlow, irrdep, irrmax = "1", "6", " 90", " 30", "  6"
 	case 6: // temperature sum for sowing that is never reached: sowing is forced on the last day of the window
